@@ -265,6 +265,12 @@ func (e *c17Env) runCase(cs c17Case, realServer *httptest.Server) {
 			return
 		}
 		if realServer != nil {
+			if expURLErr != nil {
+				if resp.Err == nil {
+					e.viol("url:unparsable-accepted", cs, "URL %q does not parse but Err is nil", expectedRaw)
+				}
+				continue
+			}
 			if cs.fault == "" && (resp.Err != nil || target.V != 42) {
 				e.viol("real-transport", cs, "loopback server round trip: err=%v target=%+v", resp.Err, *target)
 			}
